@@ -14,13 +14,18 @@ cygwin, sun and sun-color use it — `Tcell.Props.C01.noCornerTrick_db` lists th
   resolved to the screen style), two columns wide for a wide rune, a blank for a wide rune in the last
   column, with the cursor visible at the requested cell, or hidden / parked bottom-right when off-screen.
 
-`hct : c.Plain` = no corner trick **and** the pinned drawCell (`c.guardLocked = false`, see
-`Tcell.currentGuardsLockedNeighbour`).  For the tree repaired by fixes/C13-wide-left-of-locked.patch
-(`guardLocked = true`) a wide rune whose right neighbour is locked is shown as a blank of width 1 — the policy of the
-last column — and drawn again, two columns wide, by the first Show after the neighbour is unlocked: proved on the witness
-history (`Tcell.Props.C13.wide_left_of_locked_kept_repaired`, `unlock_repaints_wide_repaired`), stated as
-`Tcell.Props.C13.DisplaysRepairedCell`, checked by the oracle of engine `draw`; the history theorems below have not
-been carried over to that variant yet.
+`hct : c.Plain` = no corner trick; the locked-neighbour guard of drawCell (`c.guardLocked`, see
+`Tcell.currentGuardsLockedNeighbour`) is ARBITRARY: the theorems cover the pinned drawCell (`guardLocked = false`), the tree as
+it is (`guardLocked = true`, fixes/C13-wide-left-of-locked.patch committed) and the tree with the proposed
+fixes/C13-locked-wide-walk.patch on top (`walkGuard = true`).  On the repaired trees a wide rune whose right neighbour is locked
+when it is painted is shown as a blank of width 1 — the policy of the last column; the invariant (`SyncInv.g1`, `BlankOk`)
+remembers that such a cell is a blank only while the neighbour stays locked: LockRegion(…, false) re-dirties it
+(`Tcell.redirtyLeft`), so the first Show afterwards draws it two columns wide again, while a rune painted two columns wide
+before its neighbour was locked stays as painted.  `Displays.cells` states the clause explicitly (`nl`), and
+`Tcell.Props.C13.displays_repaired_cell` derives contributor R's `DisplaysRepairedCell` from it.
+"Visited" cells are those the draw loop of this very Show visits (`visitedG`, evaluated on the buffer the loop starts from):
+on the tree as it is the loop's skipping depends on which cells are Dirty (finding C13-locked-wide-walk), so it cannot be
+read off the final buffer; for `guardLocked = false` it is the pinned `visited` (`visitedG_eq_visited`).
 
 The theorems are named `…_partial` because two things are not covered by them: (1) the four corner-trick
 entries, (2) Layer B — that the *bytes* rendered for each abstract command drive a byte-level ECMA-48
@@ -42,7 +47,8 @@ should be. -/
 theorem show_faithful_partial (hrw : RwOk c.rw) (hct : c.Plain) (w h : Int) (ops : List ScrOp)
     (hv : ∀ op ∈ ops, op.Valid c) :
     let wd := (World.init w h).run c ops
-    (wd.trusted = true ∨ ¬ (wd.sw.ttyw = wd.sw.s.w ∧ wd.sw.ttyh = wd.sw.s.h)) → Displays c (wd.step c .show) :=
+    (wd.trusted = true ∨ ¬ (wd.sw.ttyw = wd.sw.s.w ∧ wd.sw.ttyh = wd.sw.s.h)) →
+      Displays c (wd.sw.s.resize (some (wd.sw.ttyw, wd.sw.ttyh))).cells (wd.step c .show) :=
   fun h' => (show_step hrw hct (reach_inv hrw hct w h ops hv)).2 h'
 
 /-- **Sync is faithful from arbitrary terminal contents** (Layer A): no trust hypothesis — whatever happened to
@@ -51,7 +57,7 @@ again and every StyleDefault cell is shown in the current screen style. -/
 theorem sync_faithful_partial (hrw : RwOk c.rw) (hct : c.Plain) (w h : Int) (ops : List ScrOp)
     (hv : ∀ op ∈ ops, op.Valid c) :
     let wd := (World.init w h).run c ops
-    Displays c (wd.step c .sync) ∧ (wd.step c .sync).trusted = true ∧
+    Displays c (wd.sw.s.prepSync (some (wd.sw.ttyw, wd.sw.ttyh))).cells (wd.step c .sync) ∧ (wd.step c .sync).trusted = true ∧
       (wd.step c .sync).d = some (wd.step c .sync).sw.s.style :=
   (sync_step hrw hct (reach_inv hrw hct w h ops hv)).2
 
@@ -61,7 +67,8 @@ screen at the new size. -/
 theorem resize_faithful_partial (hrw : RwOk c.rw) (hct : c.Plain) (w h : Int) (ops : List ScrOp)
     (hv : ∀ op ∈ ops, op.Valid c) (w' h' : Int) :
     let wd := (World.init w h).run c ops
-    Displays c (wd.step c (.ttyResizeNotify w' h')) ∧ (wd.step c (.ttyResizeNotify w' h')).trusted = true ∧
+    Displays c (wd.sw.s.prepResize (some (w', h'))).cells (wd.step c (.ttyResizeNotify w' h')) ∧
+      (wd.step c (.ttyResizeNotify w' h')).trusted = true ∧
       (wd.step c (.ttyResizeNotify w' h')).d = some (wd.step c (.ttyResizeNotify w' h')).sw.s.style :=
   (notify_step hrw hct (reach_inv hrw hct w h ops hv) w' h').2
 
@@ -70,7 +77,7 @@ theorem resize_noticed_by_show_partial (hrw : RwOk c.rw) (hct : c.Plain) (w h : 
     (hv : ∀ op ∈ ops, op.Valid c) (w' h' : Int)
     (hne : ¬ (w' = ((World.init w h).run c ops).sw.s.w ∧ h' = ((World.init w h).run c ops).sw.s.h)) :
     let wd := ((World.init w h).run c ops).step c (.ttyResizeQuiet w' h')
-    Displays c (wd.step c .show) := by
+    Displays c (wd.sw.s.resize (some (wd.sw.ttyw, wd.sw.ttyh))).cells (wd.step c .show) := by
   intro wd
   have hv' : ∀ op ∈ ops ++ [ScrOp.ttyResizeQuiet w' h'], op.Valid c := by
     intro op ho; rcases List.mem_append.1 ho with ho | ho
@@ -103,7 +110,13 @@ def cfgDemo : DrawCfg :=
   { rw := rwDemo, payload := fun m comb => Utf8.encode m ++ comb.flatMap Utf8.encode, hasHide := true, cornerTrick := false,
     guardLocked := false }   -- the pinned drawCell, whatever `currentGuardsLockedNeighbour` says
 
-theorem cfgDemo_plain : cfgDemo.Plain := ⟨rfl, rfl⟩
+theorem cfgDemo_plain : cfgDemo.Plain := ⟨rfl, fun h => absurd h (by decide)⟩
+
+/-- the same configuration with the locked-neighbour guard compiled in (the tree as it is), and with the walk fix on top -/
+def cfgGuard : DrawCfg := { cfgDemo with guardLocked := true }
+def cfgWalk : DrawCfg := { cfgDemo with guardLocked := true, walkGuard := true }
+theorem cfgGuard_plain : cfgGuard.Plain := ⟨rfl, fun h => absurd h (by decide)⟩
+theorem cfgWalk_plain : cfgWalk.Plain := ⟨rfl, fun _ => rfl⟩
 
 theorem rwDemo_ok : RwOk rwDemo :=
   { zero := by decide, space := by decide,
@@ -123,6 +136,22 @@ example : (((World.init 4 2).run cfgDemo opsDemo).step cfgDemo .show).t.grid 1 0
 example : (((World.init 4 2).run cfgDemo opsDemo).step cfgDemo .show).t.grid 2 0 =
     .shown [0x61, 0xcc, 0x81] false { bg := 2^32 + 4 } := by decide +kernel
 example : (((World.init 4 2).run cfgDemo opsDemo).step cfgDemo .show).t.cur = some (2, 0) := by decide
-example : visited rwDemo (((World.init 4 2).run cfgDemo opsDemo).step cfgDemo .show).sw.s.cells 1 0 = false := by decide
+example : visitedG cfgDemo ((World.init 4 2).run cfgDemo opsDemo).sw.s.cells 1 0 = false := by decide
+example : visitedG cfgDemo ((World.init 4 2).run cfgDemo opsDemo).sw.s.cells 2 0 = true := by decide
+
+/-! non-vacuity with the guard compiled in: a wide rune left of a locked cell (3×1 screen: 'b' at (1,0) shown, then locked;
+a wide rune put at (0,0)).  The hypotheses of the theorems hold, the Show paints the rune as a blank of width 1, and after
+LockRegion(…, false) the next Show draws it two columns wide. -/
+
+def opsGuard : List ScrOp :=
+  [.setContent 1 0 0x62 [] {}, .show, .lockRegion 1 0 1 1 true, .setContent 0 0 0x4e16 [] {}]
+
+example : ∀ op ∈ opsGuard, op.Valid cfgGuard := by simp [opsGuard, ScrOp.Valid, attrInvalid]
+example : ((World.init 3 1).run cfgGuard opsGuard).trusted = true := by decide
+example : visitedG cfgGuard ((World.init 3 1).run cfgGuard opsGuard).sw.s.cells 0 0 = true := by decide
+example : (((World.init 3 1).run cfgGuard opsGuard).step cfgGuard .show).t.grid 0 0 = .shown [32] false {} := by decide +kernel
+example : (((World.init 3 1).run cfgGuard opsGuard).step cfgGuard .show).t.grid 1 0 = .shown [0x62] false {} := by decide +kernel
+example : (((World.init 3 1).run cfgGuard (opsGuard ++ [.show, .lockRegion 1 0 1 1 false])).step cfgGuard .show).t.grid 0 0 =
+    .shown [0xe4, 0xb8, 0x96] true {} := by decide +kernel
 
 end Tcell.Props.C01
